@@ -97,6 +97,14 @@ theorem submit_records_bonded {h h' : Hub} {chain signer : String} {ev : Event}
         simp [pure, Except.pure] at hok
         exact ⟨v, c', hv, hc, hok.symm⟩
 
+
+/-- The bridge's staking hooks are empty: a validator entering or leaving the bonded set, or a change of
+    its power, writes no bridge state — in particular not the validator's last voted nonce, which is
+    what enforces one vote per validator per nonce.  (The harness calls the real hooks at every change
+    of the scripted validator set; to the model they are no-ops because of this fact.) -/
+theorem fact_staking_hooks : Generated.staking_hooks =
+    "AfterDelegationModified{} | AfterValidatorBeginUnbonding{} | AfterValidatorBonded{} | AfterValidatorCreated{} | AfterValidatorRemoved{} | BeforeDelegationCreated{} | BeforeDelegationRemoved{} | BeforeDelegationSharesModified{} | BeforeValidatorModified{} | BeforeValidatorSlashed{}" := rfl
+
 /-- 5. Bridge lemmas: the source expressions the model was written from. -/
 theorem fact_vote_threshold_expr : Generated.vote_threshold_expr =
     "sdk.NewInt(66).Mul(totalPower).Add(sdk.NewInt(99)).Quo(sdk.NewInt(100))" := rfl
